@@ -521,3 +521,11 @@ for _pid, _rid in (("C09", "R09.2"), ("C17", "R17.8"), ("C13", "R13.6")):
 V("C09", "twin: cutoff through a branch that keeps 2*max(radii) on both sides", "silent", (GEO, _CUT, "    max_radii = radii_1x.max()\n    if len(radii_1x) > 1:\n        reach = 2 * max_radii\n    else:\n        reach = max_radii + max_radii\n    cutoff = cluster_threshold + reach\n"))
 for _pid, _rid in (("C17", "R17.7"), ("C04", "R04.10"), ("C02", "R02.2"), ("C18", "R18.8")):
     V(_pid, "axis number used to index the filter over the periodic vectors", _rid, (PFD, "                if periodic_filter[i_per_span]:", "                if periodic_filter[periodic_axes[i_per_span]]:"))
+_MRG = "            largest_region = sorted_regions[-1]\n"
+V("C04", "merged cluster keeps the smaller region", "R04.1", (SBC, _MRG, "            largest_region = sorted_regions[0]\n"))
+V("C04", "twin: larger region through max()", "silent", (SBC, "            sorted_regions = sorted(\n                [a._region, b._region],\n                key=lambda x: -1 if x is None else len(x.get_basis_indices()),\n            )\n            largest_region = sorted_regions[-1]\n",
+  "            largest_region = max(\n                [a._region, b._region],\n                key=lambda x: -1 if x is None else len(x.get_basis_indices()),\n            )\n"))
+_A3 = "                    a = displacement + a_correction\n                    a *= multiplier\n"
+for _pid, _rid in (("C04", "R04.3"), ("C02", "R02.3")):
+    V(_pid, "periodic-image correction left outside the multiplier (3D builder)", _rid, (PFD, _A3, "                    a = multiplier * displacement + a_correction\n"))
+    V(_pid, "twin: multiplier applied in one expression", "silent", (PFD, _A3, "                    a = multiplier * (displacement + a_correction)\n"))
